@@ -110,6 +110,15 @@ class EngineBase:
             s.add(*st.guards)
             s.add(z3.Not(goal))
             r = s.check()
+            if r == z3.unknown:
+                # one retry with a longer budget and another seed: verdicts must not flip when the machine is busy
+                s = self._solver(self.timeout_ms * 4)
+                s.set(random_seed=7)
+                s.add(*self.background)
+                s.add(*st.pc)
+                s.add(*st.guards)
+                s.add(z3.Not(goal))
+                r = s.check()
             if r == z3.unsat:
                 status = 'discharged'
             elif r == z3.sat:
